@@ -55,6 +55,7 @@ from boolean.boolean import TOKEN_RPAR
 
 from license_expression._pyahocorasick import Trie as AdvancedTokenizer
 from license_expression._pyahocorasick import Token
+from license_expression._pyahocorasick import get_tokens
 
 curr_dir = dirname(abspath(__file__))
 data_dir = join(curr_dir, 'data')
@@ -1756,9 +1757,12 @@ def validate_symbols(symbols, validate_keys=False):
         aliases = getattr(symbol, 'aliases', [])
         initial_alias_len = len(aliases)
 
-        # always normalize aliases for spaces and case
+        # always normalize aliases for case and for the words that the
+        # tokenizer matches: spaces between words and around parens are not
+        # significant
         aliases = set([
-            ' '.join(alias.lower().strip().split()) for alias in aliases
+            ' '.join(t for t in get_tokens(alias) if t.strip())
+            for alias in aliases
         ])
 
         # KEEP UNIQUES, remove empties
